@@ -2241,14 +2241,861 @@ Proof.
   split.
   - eapply (hinv_mono_gen (f_legacy_auth s = true /\ typ s = TClient /\ (f_tls_mandatory s = true -> is_secured s = true)) _ _ s (auth_legacy now s));
       [intro X; exact X|split; [exact G|exact Lv]|apply auth_legacy_eff|reflexivity|..]; cbn.
-    + intros x [X|X]; [right; rewrite X, J4; auto|left; exact X].
+    + unfold eLegacy. intros x [X|X]; [right; rewrite X, J4; auto|left; exact X].
     + intros k [X|X]; subst; discriminate.
     + tauto.
     + intros i X. left. exact X.
     + intro X. discriminate X.
     + intros _ X. eapply keep_hk; [apply auth_legacy_eff|reflexivity|exact X].
-  - eapply ctx_step; [apply auth_legacy_eff|reflexivity|reflexivity|reflexivity|..|exact C]; cbn; try tauto.
-    + intros i X. left. exact X.
-    + intro X. discriminate X.
-    + intro X. discriminate X.
+  - eapply ctx_step; [apply auth_legacy_eff|reflexivity|reflexivity|reflexivity|..|exact C]; cbn; try tauto;
+      try (intros ? X; left; exact X); try (intro X; discriminate X).
 Qed.
+
+Definition TJ (e : option elem) (s : state) : Prop := JT false false false (e, True) s /\ GG s.
+
+Lemma tj_auth_timer e now s :
+  TJ e s -> (live s -> hasTMF s) -> TJ e (fst (auth 1 now s)).
+Proof.
+  intros [J Gg] HT. pose proof J as [[G Lv] C].
+  destruct (auth_eff now s) as [EA TA].
+  assert (GGa : GG (fst (auth 1 now s))).
+  { pose proof (auth_body_spec 1 now s (gi_T s G)) as B.
+    remember (fst (auth 1 now s)) as s'. remember (snd (auth 1 now s)) as o. clear Heqs' Heqo EA TA.
+    destruct B as [Em|m kh s2 Em Hm Kh s1 Hs|Em _ _ _|Em].
+    - apply gg_conn_disconnect. exact Gg.
+    - pose proof (mech_step_eff m kh s Kh) as E1.
+      destruct Hs as [Hs|[n Hs]]; subst s2; intro X;
+        [|change (st s1 = Disconnected) in X; change (sm_enabled s1 = false)];
+        apply (gg_of_eff _ _ s s1 E1 eq_refl eq_refl Gg X).
+    - exact (gg_of_eff _ _ s _ (auth_legacy_eff now s) eq_refl eq_refl Gg).
+    - exact (gg_of_eff _ _ s _ (xmpp_disconnect_eff now s) eq_refl eq_refl Gg). }
+  split; [|exact GGa].
+  destruct (classic_live s) as [Ls|Ls]; [|eapply jt_dead; [exact Ls|exact G|exact EA|exact TA]].
+  specialize (Lv Ls). pose proof (li_TMF s Lv (HT Ls)) as HF.
+  destruct (li_XF s Lv HF) as [X1 [[X2a X2b] [X3 [X4 X5]]]]. specialize (X5 (HT Ls)).
+  pose proof (auth_body_spec 1 now s (gi_T s G)) as B.
+  remember (fst (auth 1 now s)) as s'. remember (snd (auth 1 now s)) as o. clear Heqs' Heqo EA TA GGa.
+  destruct B as [Em|m kh s2 Em Hm Kh s1 Hs|Em Ty La _|Em].
+  - repeat peelJ.
+  - rewrite X5 in Hm. discriminate Hm.
+  - apply jt_auth_legacy; [exact J|]. intros _. split; [exact La|]. split; [exact Ty|]. split; [|exact X2b].
+    intro M. rewrite M in Em. destruct (is_secured s); [reflexivity|discriminate].
+  - repeat peelJ.
+Qed.
+
+Lemma tj_step e c p s s' :
+  TJ e s -> eff c p s s' -> subl c cK = true -> fmem FhD c = false -> fmem FidD c = false ->
+  fmem Fsme c = false -> fmem Fdisc c = false ->
+  (forall x, pw p x -> benignE x) -> (forall k, pt p k -> k <> TMissingFeatures) ->
+  (forall k, ~ ph p k) -> (forall i, pid p i -> i = IKLegacy) ->
+  TJ e s'.
+Proof.
+  intros [J G] E Sub F1 F2 F3 F4 Pw Pt Ph Pi. split; [|eapply gg_of_eff; eassumption].
+  eapply jt_step; try eassumption.
+  - intros k X. destruct (Ph k X).
+  - intros i X. left. auto.
+  - intro X. congruence.
+  - intros X. discriminate X.
+Qed.
+
+Lemma call_timed_TJ e k now s :
+  TJ e s -> (live s -> k = TMissingFeatures -> hasTMF s) ->
+  TJ e (fst (fst (call_timed k now s))).
+Proof.
+  intros T HT. destruct k; cbv beta iota delta [call_timed]; cbn [fst];
+    try (eapply tj_step; [exact T|apply xmpp_disconnect_eff|reflexivity|reflexivity|reflexivity|reflexivity|reflexivity|..];
+         [pw_tac|pt_tac|cbn; tauto|cbn; tauto]).
+  - exact T.
+  - rewrite fst3_let. apply tj_auth_timer; [exact T|]. intro L. apply HT; [exact L|reflexivity].
+  - rewrite fst3_let. destruct T as [J G]. split; [repeat peelJ|apply gg_conn_disconnect; exact G].
+Qed.
+
+Lemma timed_lookup_In k s x : timed_lookup k s = Some x -> In k (tk s).
+Proof.
+  unfold timed_lookup. destruct (find (fun y => tkind_eqb k (fst (fst y))) (timed s)) as [[[k' en] stp]|] eqn:E; [|discriminate].
+  intros _. apply find_some in E as [A B]. cbn in B. apply tkind_eqb_eq in B. subst k'.
+  unfold tk. apply in_map_iff. exists (k, en, stp). split; [reflexivity|exact A].
+Qed.
+
+Lemma visit_timed_TJ e now r k : TJ e (fst r) -> TJ e (fst (visit_timed now r k)).
+Proof.
+  destruct r as [s o]. cbn [fst]. intro T. unfold visit_timed.
+  destruct (crashed s); [exact T|].
+  destruct (timed_lookup k s) as [[en stp]|] eqn:Lk; [|exact T].
+  destruct (negb en); [exact T|].
+  destruct (tkind_eqb k TUser && negb (neg_done s)); [exact T|].
+  destruct (now - stp >=? tperiod s k); [|exact T].
+  pose proof (timed_lookup_In k s _ Lk) as Ik.
+  assert (T1 : TJ e (timed_set_stamp k now s)).
+  { eapply tj_step; [exact T|apply (timed_set_stamp_eff pnone)|reflexivity|reflexivity|reflexivity|reflexivity|reflexivity|..]; cbn; tauto. }
+  assert (T2 : TJ e (fst (fst (call_timed k now (timed_set_stamp k now s))))).
+  { apply call_timed_TJ; [exact T1|]. intros _ X. subst k. unfold hasTMF.
+    pose proof (ef_U _ _ _ _ (timed_set_stamp_eff pnone TMissingFeatures now s) Ft eq_refl) as Y. unfold eq_on in Y. rewrite Y. exact Ik. }
+  destruct (call_timed k now (timed_set_stamp k now s)) as [[s2 o2] keep]. cbn [fst] in *.
+  destruct keep; [exact T2|].
+  eapply tj_step; [exact T2|apply (timed_del_eff pnone)|reflexivity|reflexivity|reflexivity|reflexivity|reflexivity|..]; cbn; tauto.
+Qed.
+Lemma fold_visit_timed_TJ e now ks : forall r, TJ e (fst r) -> TJ e (fst (fold_left (visit_timed now) ks r)).
+Proof. induction ks as [|k ks IH]; intros r T; simpl; [exact T|]. apply IH. apply visit_timed_TJ. exact T. Qed.
+
+Lemma fire_timed_TJ e now s : TJ e s -> TJ e (fst (fire_timed now s)).
+Proof.
+  intro T. unfold fire_timed. destruct (st s); try exact T. cbv zeta.
+  apply fold_visit_timed_TJ. cbn [fst].
+  eapply (tj_step e [] pnone); [exact T| |reflexivity|reflexivity|reflexivity|reflexivity|reflexivity|..]; cbn; try tauto.
+  apply eff_of_frame; try reflexivity; try (intros X; exact X).
+  intros f H; destruct f; try discriminate H; try reflexivity.
+  unfold eq_on, tk. simpl. rewrite ?map_map. simpl. apply map_ext. intros [[a b] c]. reflexivity.
+Qed.
+
+(* ------------------------------------------------------------------ step level *)
+Lemma inv_tj s : Inv s -> st s <> Connecting -> TJ None s.
+Proof.
+  intros [H [P G]] N. split; [|exact G]. split; [exact H|].
+  split; [intro X; discriminate X|]. split; [intro X; discriminate X|]. split; [exact N|].
+  split; [|split; [intro X; discriminate X|intros _; exact I]].
+  intros L F. split; [intros e X; discriminate X|]. intros A B. left. exact (P L F A B).
+Qed.
+Lemma tj_inv s : TJ None s -> Inv s.
+Proof.
+  intros [[H [_ [_ [_ [D _]]]]] G]. split; [exact H|]. split; [|exact G].
+  intros L F A B. destruct (D L F) as [_ D2]. destruct (D2 A B) as [X|[e [X _]]]; [exact X|discriminate X].
+Qed.
+Lemma cinv_tj s : CInv s -> TJ None s.
+Proof.
+  intros C. split; [apply cinv_jt; exact C|]. destruct C as [_ [_ [_ LC]]]. intro X. apply (LC X).
+Qed.
+Lemma tj_cinv s : TJ None s -> st s = Connected -> CInv s.
+Proof.
+  intros [[H [_ [_ [N [D _]]]]] G] C. split; [exact H|]. split; [exact N|]. split; [exact D|]. intro X. congruence.
+Qed.
+
+(* the send phase *)
+Lemma stamped_In (l : list entry) : forall n acc x,
+  In x (snd (fold_left (fun a y => (fst a + 1, snd a ++ [(fst (fst y), snd (fst y), snd y, fst a)])) l (n, acc))) ->
+  In x acc \/ exists y, In y l /\ fst (fst (fst x)) = fst (fst y).
+Proof.
+  induction l as [|y r IH]; intros n acc x H; simpl in H; [left; exact H|].
+  destruct (IH _ _ _ H) as [A|[z [A B]]].
+  - apply in_app_iff in A as [A|[A|[]]]; [left; exact A|right]. exists y. split; [left; reflexivity|subst x; reflexivity].
+  - right. exists z. split; [right; exact A|exact B].
+Qed.
+
+Definition flushed (s : state) : state :=
+  let countable := if sm_enabled s then filter (fun x => negb (snd x)) (sendq s) else [] in
+  let stamped := snd (fold_left (fun a x => (fst a + 1, snd a ++ [(fst (fst x), snd (fst x), snd x, fst a)])) countable (sm_sent s, [])) in
+  set_sm_sent (sm_sent s + Z.of_nat (List.length countable)) (set_smq (smq s ++ stamped) (set_sendq [] s)).
+
+Lemma hinv_flushed s : HInv s -> live s -> HInv (flushed s).
+Proof.
+  intros [[G1 G2] Lv] Ls. specialize (Lv Ls). unfold flushed. cbv zeta. split.
+  - constructor; [exact G1|]. intros w H. unfold sw in H. cbn in H. rewrite map_app in H. apply in_app_iff in H as [H|H]; [apply G2; exact H|].
+    apply in_map_iff in H as [x [X1 X2]]. subst w.
+    destruct (stamped_In _ _ _ _ X2) as [[]|[y [Y1 Y2]]]. rewrite Y2.
+    destruct (sm_enabled s); [|destruct Y1]. apply filter_In in Y1 as [Y1 Y3].
+    apply (li_Q s Lv y Y1). destruct (snd y); [discriminate|reflexivity].
+  - intros _. constructor.
+    + intro A. destruct (li_C s Lv A) as [X1 [X2 [X3 X4]]]. split; [exact X1|]. split; [exact X2|]. split; [reflexivity|exact X4].
+    + exact (li_XF s Lv). + exact (li_XT s Lv). + exact (li_XS s Lv). + exact (li_XP s Lv).
+    + exact (li_TMF s Lv). + exact (li_POA s Lv). + exact (li_POT s Lv). + exact (li_POP s Lv). + exact (li_O s Lv).
+    + exact (li_R s Lv). + exact (li_RP s Lv). + exact (li_RAW s Lv). + exact (li_STUB s Lv). + exact (li_COMP s Lv).
+    + intros x [].
+    + intros A [B|[x [[] _]]]. apply (li_M s Lv A). left. exact B.
+    + intros _ x [].
+    + intros x [].
+    + intros x [].
+Qed.
+
+Lemma send_phase_eq s : st s = Connected ->
+  send_phase s =
+    (let o := map (fun x => OWire (tls_present s) (fst (fst x))) (sendq s) in
+     if negb (err (flushed s) =? 0) then let '(s2, o2) := conn_disconnect (set_err ECONNABORTED (flushed s)) in (s2, o ++ o2)
+     else (flushed s, o)).
+Proof. intro C. unfold send_phase. rewrite C. reflexivity. Qed.
+
+Lemma tj_flushed s : TJ None s -> st s = Connected -> TJ None (flushed s).
+Proof.
+  intros [[H [C1 [C2 [C3 [C4 [C5 C6]]]]]] G] Cn.
+  assert (Ls : live s) by (unfold live; rewrite Cn; discriminate).
+  split; [|exact G]. split; [apply hinv_flushed; assumption|].
+  split; [exact C1|]. split; [exact C2|]. split; [exact C3|]. split; [exact C4|]. split; [exact C5|exact C6].
+Qed.
+
+Lemma send_phase_inv s :
+  Inv s -> Inv (fst (send_phase s)) /\ (live (fst (send_phase s)) -> sendq (fst (send_phase s)) = []) /\
+  reset_parser (fst (send_phase s)) = reset_parser s.
+Proof.
+  intro I. destruct (st s) eqn:Cn.
+  - unfold send_phase. rewrite Cn. cbn [fst ret]. split; [exact I|]. split; [|reflexivity]. intro L. unfold live in L. congruence.
+  - unfold send_phase. rewrite Cn. cbn [fst ret]. split; [exact I|]. split; [|reflexivity]. intros _.
+    destruct I as [[_ Lv] _]. destruct (li_C s (Lv ltac:(unfold live; rewrite Cn; discriminate)) Cn) as [_ [_ [X _]]]. exact X.
+  - rewrite (send_phase_eq s Cn). cbv zeta.
+    assert (T : TJ None (flushed s)) by (apply tj_flushed; [apply inv_tj; [exact I|congruence]|exact Cn]).
+    destruct (negb (err (flushed s) =? 0)).
+    + set (u := set_err ECONNABORTED (flushed s)).
+      assert (Tu : TJ None u).
+      { destruct T as [J G]. split; [unfold u; repeat peelJ|exact G]. }
+      pose proof (conn_disconnect_eff pnone u) as E.
+      assert (T2 : TJ None (fst (conn_disconnect u))).
+      { destruct Tu as [J G]. split; [repeat peelJ|apply gg_conn_disconnect; exact G]. }
+      pose proof (ef_U _ _ _ _ E Fsq eq_refl) as Q1. pose proof (ef_U _ _ _ _ E Frp eq_refl) as Q2. unfold eq_on in Q1, Q2.
+      destruct (conn_disconnect u) as [s2 o2]. cbn [fst] in *.
+      split; [apply tj_inv; exact T2|]. split; [intros _; rewrite Q1; reflexivity|rewrite Q2; reflexivity].
+    + cbn [fst]. split; [apply tj_inv; exact T|]. split; [intros _; reflexivity|reflexivity].
+Qed.
+
+(* the parser reset at the beginning of an iteration *)
+Definition do_reset (s : state) : state := if reset_parser s then set_ps PDepth0 (set_reset_parser false s) else s.
+Lemma inv_reset s : Inv s -> (live s -> sendq s = []) -> Inv (do_reset s) /\ reset_parser (do_reset s) = false /\
+  st (do_reset s) = st s /\ (live s -> sendq (do_reset s) = []).
+Proof.
+  intros I Q. unfold do_reset. destruct (reset_parser s) eqn:R; [|split; [exact I|split; [exact R|split; [reflexivity|exact Q]]]].
+  split; [|split; [reflexivity|split; [reflexivity|exact Q]]].
+  destruct I as [[[G1 G2] Lv] [P G]]. split; [|split; [exact P|exact G]].
+  split; [constructor; [exact G1|exact G2]|]. intro L'. specialize (Lv L'). specialize (Q L'). constructor.
+  - exact (li_C s Lv). - exact (li_XF s Lv). - exact (li_XT s Lv). - exact (li_XS s Lv). - exact (li_XP s Lv).
+  - exact (li_TMF s Lv).
+  - intros A B _. rewrite (li_R s Lv A B) in R. discriminate.
+  - intros A _. destruct (li_POT s Lv A (or_introl R)) as [X1 [X2 _]]. split; [exact X1|]. split; [exact X2|]. intro X. contradiction.
+  - exact (li_POP s Lv). - exact (li_O s Lv).
+  - intros _ _. reflexivity.
+  - intros _ _ X. discriminate X.
+  - exact (li_RAW s Lv). - exact (li_STUB s Lv). - exact (li_COMP s Lv).
+  - exact (li_Q s Lv). - exact (li_M s Lv). - exact (li_D s Lv). - exact (li_L s Lv).
+  - intros x A. change (sendq (set_ps PDepth0 (set_reset_parser false s))) with (sendq s) in A. rewrite Q in A. destruct A.
+Qed.
+
+(* a connection attempt ends without a connection *)
+Lemma inv_dead s : GInv s -> st s = Disconnected -> sm_enabled s = false -> Inv s.
+Proof.
+  intros G D S. split; [split; [exact G|intro L; unfold live in L; contradiction]|].
+  split; [intro L; unfold live in L; contradiction|intros _; exact S].
+Qed.
+
+(* the socket connects *)
+Lemma linv_connected s : LInv s -> st s = Connecting -> reset_parser s = false -> LInv (set_st Connected s).
+Proof.
+  intros L C R. destruct (li_C s L C) as [[F1 [F2 [F3 [F4 [F5 F6]]]]] [S1 [S2 [O1 [O2 O3]]]]].
+  assert (NH : forall k, In k (hk s) -> k <> HUser -> False) by (intros k A B; apply B, F3, A).
+  constructor.
+  - intro X. discriminate X.
+  - intro X. exfalso. apply (NH _ X). discriminate.
+  - intro X. exfalso. apply (NH _ X). discriminate.
+  - intros k X Y. exfalso. apply (NH _ X). intro Z. subst. discriminate.
+  - intros k X Y. exfalso. apply (NH _ X). intro Z. subst. discriminate.
+  - intro X. contradiction.
+  - intros _ _ _. repeat split; assumption.
+  - intro X. contradiction.
+  - intros [X|X]; contradiction.
+  - intro X. contradiction.
+  - intros _ _. exact R.
+  - intros _ _ X. change (reset_parser s = true) in X. congruence.
+  - exact (li_RAW s L).
+  - exact (li_STUB s L).
+  - intros _. split; [intros k X; rewrite (F3 k X); reflexivity|]. split; [exact F4|exact F5].
+  - intros x X. change (In x (sendq s)) in X. rewrite S2 in X. destruct X.
+  - intros _ [[k [X Y]]|[x [X _]]]; [exfalso; apply (NH _ X); intro Z; subst; discriminate|].
+    change (In x (sendq s)) in X. rewrite S2 in X. destruct X.
+  - intros _ x X. change (In x (sendq s)) in X. rewrite S2 in X. destruct X.
+  - intros x X. change (In x (sendq s)) in X. rewrite S2 in X. destruct X.
+  - intros x X. change (In x (sendq s)) in X. rewrite S2 in X. destruct X.
+Qed.
+
+Lemma tj_connected s : Inv s -> st s = Connecting -> reset_parser s = false -> TJ None (set_st Connected s).
+Proof.
+  intros [[[G1 G2] Lv] [P G]] C R.
+  assert (Ls : live s) by (unfold live; rewrite C; discriminate). specialize (Lv Ls).
+  destruct (li_C s Lv C) as [[F1 [F2 [F3 _]]] _].
+  split; [|intro X; discriminate X].
+  split; [split; [constructor; [exact G1|exact G2]|intros _; apply linv_connected; assumption]|].
+  split; [intro X; discriminate X|]. split; [intro X; discriminate X|]. split; [discriminate|].
+  split; [|split; [intro X; discriminate X|intros _; exact I]].
+  intros _ X. specialize (F3 _ X). discriminate.
+Qed.
+
+Lemma conn_established_inv now s :
+  Inv s -> st s = Connecting -> reset_parser s = false -> TJ None (fst (conn_established now (set_st Connected s))).
+Proof.
+  intros I C R. pose proof (tj_connected s I C R) as T. set (u := set_st Connected s) in *.
+  assert (NHu : ~ hasT u /\ ~ hasS u /\ sendq u = []).
+  { destruct I as [[_ Lv] _]. destruct (li_C s (Lv ltac:(unfold live; rewrite C; discriminate)) C) as [[_ [_ [F3 _]]] [_ [S2 _]]].
+    split; [intro X; specialize (F3 _ X); discriminate|]. split; [|exact S2].
+    intros [k [X Y]]. specialize (F3 _ X). subst. discriminate. }
+  destruct NHu as [NT [NS SQ]].
+  unfold conn_established. cbv zeta.
+  assert (FIN : forall s1 o1 (ok : bool), TJ None s1 ->
+            TJ None (fst (if negb ok then let '(s2, o2) := conn_disconnect s1 in (s2, o1 ++ o2)
+                          else if is_raw s1 then (set_neg_done true (timed_reset_all now s1), o1 ++ [ORawConnect])
+                          else (conn_open_stream s1, o1)))).
+  { intros s1 o1 ok [J G]. destruct ok; cbn [negb].
+    - destruct (is_raw s1); cbn [fst].
+      + split; [repeat peelJ|]. eapply (gg_of_eff [] pnone s1); [|reflexivity|reflexivity|exact G].
+        eapply eff_trans with (c1 := []) (c2 := []); [apply (timed_reset_all_eff pnone)|eff_frame].
+      + split; [repeat peelJ|]. exact (gg_of_eff _ _ s1 _ (conn_open_stream_eff s1) eq_refl eq_refl G).
+    - pose proof (gg_conn_disconnect s1 G) as G2.
+      assert (J2 : JT false false false (None, True) (fst (conn_disconnect s1))) by (repeat peelJ).
+      destruct (conn_disconnect s1) as [s2 o2]. cbn [fst] in *. split; assumption. }
+  destruct (f_legacy_ssl u && negb (is_raw u)); [|apply FIN; exact T].
+  unfold conn_tls_start. cbv zeta.
+  destruct (f_tls_disabled u); [apply FIN; exact T|].
+  destruct (negb (tlsnew_ok u)); [apply FIN; exact T|].
+  set (v := tl (tls_verdicts u)).
+  assert (NOC : f_tls_mandatory u = true -> (hasS u \/ exists x, In x (sendq u) /\ is_cred (fst (fst x)) = true) -> False).
+  { intros _ [X|[x [X _]]]; [contradiction|]. rewrite SQ in X. destruct X. }
+  destruct T as [[[Gu Lu] Cu] GGu]. pose proof (Lu ltac:(unfold live; discriminate)) as Lu'.
+  destruct (match tls_verdicts u with [] => true | b :: _ => b end); apply FIN.
+  - split; [|intro X; discriminate X]. split; [|exact Cu].
+    split; [destruct Gu as [G1 G2]; constructor; [exact G1|exact G2]|]. intros _.
+    apply linv_tls_up; [exact Lu'|discriminate|exact NT|]. intros M B. destruct (NOC M B).
+  - split; [|intro X; discriminate X]. split; [|exact Cu].
+    split; [destruct Gu as [G1 G2]; constructor; [exact G1|exact G2]|]. intros _.
+    apply linv_tls_down; [exact Lu'|exact NOC].
+Qed.
+
+(* states that differ only in fields the invariant does not read *)
+Ltac linv_conv s L :=
+  constructor;
+  [ exact (li_C s L) | exact (li_XF s L) | exact (li_XT s L) | exact (li_XS s L) | exact (li_XP s L)
+  | exact (li_TMF s L) | exact (li_POA s L) | exact (li_POT s L) | exact (li_POP s L) | exact (li_O s L)
+  | exact (li_R s L) | exact (li_RP s L) | exact (li_RAW s L) | exact (li_STUB s L) | exact (li_COMP s L)
+  | exact (li_Q s L) | exact (li_M s L) | exact (li_D s L) | exact (li_L s L) | exact (li_PL s L) ].
+Ltac inv_conv :=
+  let G1 := fresh in let G2 := fresh in let Lv := fresh in let P := fresh in let G := fresh in
+  intros [[[G1 G2] Lv] [P G]];
+  split; [split; [constructor; [exact G1|exact G2]|let L' := fresh in intro L'; specialize (Lv L'); linv_conv_goal Lv]|split; [exact P|exact G]]
+with linv_conv_goal Lv :=
+  match type of Lv with LInv ?s => linv_conv s Lv end.
+
+Lemma inv_set_rxq v s : Inv s -> Inv (set_rxq v s).
+Proof. inv_conv. Qed.
+Lemma inv_connect_next v1 v2 v3 v4 s : Inv s -> Inv (set_rxq v1 (set_stamp v2 (set_cur_ep v3 (set_cands v4 s)))).
+Proof. inv_conv. Qed.
+Lemma ginv_conv' s s' : GInv s -> tls_support s' = tls_support s -> sw s' = sw s -> GInv s'.
+Proof. intros G A B. apply (ginv_conv s); assumption. Qed.
+
+Lemma connect_next_inv now s :
+  Inv s -> st s = Connecting ->
+  let r := connect_next now s in
+  Inv (fst (fst r)) /\ st (fst (fst r)) = Connecting /\ reset_parser (fst (fst r)) = reset_parser s /\
+  GInv (fst (fst r)).
+Proof.
+  intros I C. unfold connect_next. destruct (sock_connect (cands s)) as [o [[k r]|]]; cbn [fst].
+  - split; [apply inv_connect_next; exact I|]. split; [exact C|]. split; [reflexivity|].
+    destruct I as [[[G1 G2] _] _]. constructor; [exact G1|exact G2].
+  - assert (I2 : Inv (set_cands [] s)) by (revert I; inv_conv).
+    split; [exact I2|]. split; [exact C|]. split; [reflexivity|]. destruct I as [[[G1 G2] _] _]. constructor; [exact G1|exact G2].
+Qed.
+
+(* the attempt is given up: err, st := Disconnected, neg_done, the SM state is reset *)
+Lemma inv_give_up e s : GInv s -> Inv (reset_sm_for_reconnect (set_neg_done false (set_st Disconnected (set_err e s)))).
+Proof.
+  intros [G1 G2]. apply inv_dead.
+  - unfold reset_sm_for_reconnect. cbv zeta. break_if; constructor; [exact G1|exact G2|exact G1|exact G2].
+  - unfold reset_sm_for_reconnect. cbv zeta. break_if; reflexivity.
+  - apply reset_sm_sme.
+Qed.
+
+Lemma fire_timed_inv now s : Inv s -> Inv (fst (fire_timed now s)) /\
+  (st s = Connecting -> fst (fire_timed now s) = s).
+Proof.
+  intro I. split.
+  - destruct (st s) eqn:C; try (unfold fire_timed; rewrite C; exact I).
+    apply tj_inv. apply fire_timed_TJ. apply inv_tj; [exact I|congruence].
+  - intro C. unfold fire_timed. rewrite C. reflexivity.
+Qed.
+
+Lemma run_once_inv now rd s0 : Inv s0 -> Inv (fst (run_once now rd s0)).
+Proof.
+  intro I0. unfold run_once. destruct (crashed s0); [exact I0|].
+  set (s := match rd with RdNone => s0 | _ => match st s0 with Disconnected => s0 | _ => set_rxq (rxq s0 ++ [rd]) s0 end end).
+  assert (I : Inv s) by (unfold s; destruct rd; try exact I0; destruct (st s0); try exact I0; apply inv_set_rxq; exact I0).
+  clearbody s. clear I0.
+  destruct (send_phase_inv s I) as [I1 [Q1 R1]]. destruct (send_phase s) as [s1 o1]. cbn [fst] in *.
+  destruct (crashed s1); [exact I1|].
+  destruct (inv_reset s1 I1 Q1) as [I2 [R2 [St2 Q2]]]. fold (do_reset s1).
+  set (s2 := do_reset s1) in *. clearbody s2.
+  destruct (fire_timed_inv now s2 I2) as [I3 F3].
+  assert (R3 : st (fst (fire_timed now s2)) = Connecting -> reset_parser (fst (fire_timed now s2)) = false).
+  { intro X. destruct (st s2) eqn:C.
+    - unfold fire_timed in X. rewrite C in X. cbn in X. congruence.
+    - rewrite (F3 eq_refl). exact R2.
+    - exfalso. pose proof (fire_timed_good now s2) as [E _]. destruct (ef_st _ _ _ _ E) as [Y|Y]; congruence. }
+  destruct (fire_timed now s2) as [s3 o3]. cbn [fst] in *.
+  destruct (crashed s3); [exact I3|].
+  (* the connect time-out *)
+  match goal with |- Inv (fst (let '(s4, o4) := ?r4 in _)) =>
+    assert (I4 : Inv (fst r4) /\ (st (fst r4) = Connecting -> reset_parser (fst r4) = false)) end.
+  { destruct (st s3) eqn:C3; cbn [fst ret]; try (split; [exact I3|intro X; congruence]).
+    destruct (now - stamp s3 <=? CONNECT_TIMEOUT); cbn [fst ret]; [split; [exact I3|intros _; apply R3; reflexivity]|].
+    destruct (connect_next_inv now s3 I3 C3) as [A [B [C D]]].
+    destruct (connect_next now s3) as [[s' o'] ok]. cbn [fst] in *. destruct ok; cbn [fst].
+    - split; [exact A|]. intros _. rewrite C. apply R3. reflexivity.
+    - split; [apply inv_give_up; exact D|]. intro X. exfalso. revert X.
+      unfold reset_sm_for_reconnect. cbv zeta. break_if; discriminate. }
+  match goal with |- Inv (fst (let '(s4, o4) := ?r4 in _)) => destruct r4 as [s4 o4] end. cbn [fst] in I4. destruct I4 as [I4 R4].
+  match goal with |- Inv (fst (if negb ?ready then _ else _)) => destruct (negb ready) end; [exact I4|].
+  match goal with |- Inv (fst (let '(s5, o5) := ?r5 in _)) => assert (I5 : Inv (fst r5)) end.
+  { destruct (st s4) eqn:C4; cbn [fst ret]; [exact I4| |].
+    - destruct (cur_ep s4); cbn [fst ret]; try exact I4.
+      + apply tj_inv. apply conn_established_inv; [exact I4|exact C4|exact (R4 eq_refl)].
+      + destruct (connect_next_inv now s4 I4 C4) as [A [B [C D]]].
+        destruct (connect_next now s4) as [[s' o'] ok]. cbn [fst] in *. destruct ok; cbn [fst]; [exact A|].
+        apply inv_give_up; exact D.
+    - set (u := set_rxq (tl (rxq s4)) s4).
+      assert (Iu : Inv u) by (apply inv_set_rxq; exact I4).
+      assert (Cu : st u = Connected) by exact C4.
+      assert (Tu : TJ None u) by (apply inv_tj; [exact Iu|congruence]).
+      destruct (match rxq s4 with [] => RdNone | x :: _ => x end); cbn [fst ret]; try exact Iu.
+      + pose proof (feed_items_inv now its u (tj_cinv u Tu Cu)) as CF.
+        destruct (feed_items now its u) as [[s' o'] bad]. cbn [fst] in *.
+        apply cinv_tj in CF. destruct bad; cbn [fst]; [|apply tj_inv; exact CF].
+        apply tj_inv. eapply tj_step; [exact CF|apply send_gated_eff|reflexivity|reflexivity|reflexivity|reflexivity|reflexivity|..];
+          [pw_tac|pt_tac|cbn; tauto|cbn; tauto].
+      + assert (Tv : TJ None (fst (conn_disconnect (set_err ECONNRESET u)))).
+        { destruct Tu as [J G]. split; [repeat peelJ|apply gg_conn_disconnect; exact G]. }
+        apply tj_inv. destruct (tls_present u); exact Tv.
+      + destruct Tu as [J G]. apply tj_inv. split; [repeat peelJ|apply gg_conn_disconnect; exact G]. }
+  match goal with |- Inv (fst (let '(s5, o5) := ?r5 in _)) => destruct r5 as [s5 o5] end. cbn [fst] in I5.
+  destruct (crashed s5); [exact I5|].
+  destruct (fire_timed_inv now s5 I5) as [I6 _]. destruct (fire_timed now s5) as [s6 o6]. exact I6.
+Qed.
+
+(* ------------------------------------------------------------------ user operations *)
+Lemma inv_step_eff_g c p s s' :
+  Inv s -> eff c p s s' -> subl c cK = true -> fmem FhD c = false -> fmem FidD c = false ->
+  fmem Fsme c = false ->
+  (forall x, pw p x -> benignE x) -> (forall k, pt p k -> k <> TMissingFeatures) ->
+  (forall k, ~ ph p k) -> (forall i, pid p i -> i = IKLegacy) -> GG s' ->
+  Inv s'.
+Proof.
+  intros [H [P G]] E Sub F1 F2 F3 Pw Pt Ph Pi G'. pose proof (subl_ok _ _ Sub) as W. split; [|split].
+  - eapply hinv_mono; try eassumption.
+    + intros k X. destruct (Ph k X).
+    + intros i X. left. auto.
+    + intro X. congruence.
+    + intros _ X. eapply keep_hk; eassumption.
+  - intros L' F' Cr Gs. destruct (live_back _ _ (ef_st _ _ _ _ E) L') as [L0 _].
+    pose proof (ef_L _ _ _ _ E L') as Fr.
+    assert (F0 : hasF s) by (destruct (ef_h _ _ _ _ E _ F') as [X|X]; [exact X|destruct (Ph _ X)]).
+    pose proof (Fr Fgs (W Fgs eq_refl)) as Egs. pose proof (Fr Fsasl (W Fsasl eq_refl)) as Esasl. cbn in Egs, Esasl.
+    unfold strong_in. rewrite Esasl. apply (P L0 F0); [|congruence].
+    destruct (crashed s) eqn:Q; [rewrite (ef_cr _ _ _ _ E Q) in Cr; discriminate|reflexivity].
+  - exact G'.
+Qed.
+Lemma inv_step_eff c p s s' :
+  Inv s -> eff c p s s' -> subl c cK = true -> fmem FhD c = false -> fmem FidD c = false ->
+  fmem Fsme c = false -> fmem Fdisc c = false ->
+  (forall x, pw p x -> benignE x) -> (forall k, pt p k -> k <> TMissingFeatures) ->
+  (forall k, ~ ph p k) -> (forall i, pid p i -> i = IKLegacy) ->
+  Inv s'.
+Proof.
+  intros I E Sub F1 F2 F3 F4 Pw Pt Ph Pi. eapply inv_step_eff_g; try eassumption.
+  destruct I as [_ [_ G]]. eapply gg_of_eff; eassumption.
+Qed.
+
+Lemma inv_dead_eff c p s s' :
+  Inv s -> eff c p s s' -> fmem Ftlss c = false -> st s' = Disconnected -> sm_enabled s' = false -> Inv s'.
+Proof.
+  intros [[G _] _] E F D S. apply inv_dead; [|exact D|exact S].
+  constructor.
+  - assert (X : fmem Ftlss (c ++ DISC) = false) by (rewrite fmem_app, F; reflexivity).
+    pose proof (ef_U _ _ _ _ E Ftlss X) as Y. cbn in Y. rewrite Y. apply (gi_T s G).
+  - intros w H. apply (gi_S s G), (ef_smq _ _ _ _ E), H.
+Qed.
+
+Lemma inv_xmpp_disconnect now s : Inv s -> Inv (xmpp_disconnect now s).
+Proof.
+  intro I. eapply inv_step_eff; [exact I|apply xmpp_disconnect_eff|reflexivity|reflexivity|reflexivity|reflexivity|reflexivity|..];
+    [pw_tac|pt_tac|cbn; tauto|cbn; tauto].
+Qed.
+Lemma inv_send_user s : Inv s -> Inv (send_gated WUser true false s).
+Proof.
+  intro I. eapply inv_step_eff; [exact I|apply send_gated_eff|reflexivity|reflexivity|reflexivity|reflexivity|reflexivity|..];
+    [pw_tac|pt_tac|cbn; tauto|cbn; tauto].
+Qed.
+Lemma inv_send_raw s : Inv s -> Inv (send_raw_m WUserRaw true false s).
+Proof.
+  intro I. eapply inv_step_eff; [exact I|apply send_raw_m_eff|reflexivity|reflexivity|reflexivity|reflexivity|reflexivity|..];
+    [pw_tac|pt_tac|cbn; tauto|cbn; tauto].
+Qed.
+Lemma inv_note_outs o s : Inv s -> Inv (note_outs o s).
+Proof.
+  intro I. eapply inv_step_eff; [exact I|apply (note_outs_eff pnone)|reflexivity|reflexivity|reflexivity|reflexivity|reflexivity|..]; cbn; tauto.
+Qed.
+Lemma inv_release s : Inv s -> Inv (fst (conn_disconnect s)).
+Proof.
+  intro I. eapply inv_step_eff_g; [exact I|apply (conn_disconnect_eff pnone)|reflexivity|reflexivity|reflexivity|reflexivity|..]; cbn; try tauto.
+  apply gg_conn_disconnect. destruct I as [_ [_ G]]. exact G.
+Qed.
+
+Lemma conn_reset_facts s : st s = Disconnected ->
+  let r := conn_reset s in
+  sendq r = [] /\ secured r = false /\ tls_support r = false /\ sasl r = [] /\ ik r = [] /\
+  (forall k, In k (hk r) -> k = HUser) /\ (forall k, In k (tk r) -> k = TUser) /\
+  sm_enabled r = sm_enabled s /\ sw r = sw s /\ is_raw r = is_raw s /\ st r = Disconnected.
+Proof.
+  intro D. unfold conn_reset. rewrite D. cbv zeta. repeat split; try reflexivity.
+  - intros k H. unfold hk in H. cbn in H.
+    rewrite (map_filter_proj (@fst hkind bool) (fun y => hkind_eqb y HUser)) in H.
+    apply filter_In in H as [_ H]. apply hkind_eqb_eq in H. exact H.
+  - intros k H. unfold tk in H. cbn in H.
+    rewrite (map_filter_proj (fun x : tkind * bool * Z => fst (fst x)) (fun y => tkind_eqb y TUser)) in H.
+    apply filter_In in H as [_ H]. apply tkind_eqb_eq in H. exact H.
+  - exact D.
+Qed.
+
+Lemma conn_connect_inv now t s : Inv s -> Inv (fst (fst (conn_connect now t s))).
+Proof.
+  intro I. unfold conn_connect. destruct (st s) eqn:D; cbn [fst]; try exact I.
+  destruct (conn_reset_facts s D) as [R1 [R2 [R3 [R4 [R5 [R6 [R7 [R8 [R9 [R10 R11]]]]]]]]]].
+  cbv zeta in *. set (r := conn_reset s) in *. clearbody r.
+  destruct I as [[[G1 G2] _] [_ G]]. specialize (G D).
+  set (s1 := set_typ t (set_sm_alloc true r)).
+  destruct (sock_connect (cands s1)) as [o [[k rest]|]]; cbn [fst].
+  2: { apply inv_dead; [constructor; [exact R3|intros w H; apply G2; change (In w (sw r)) in H; rewrite R9 in H; exact H]|exact R11|].
+       change (sm_enabled r = false). congruence. }
+  set (h := if is_raw s1 then OpenStub else match t with TClient => OpenAuth | TComponent => OpenComponent end).
+  split; [|split].
+  - split; [constructor; [exact R3|intros w H; apply G2; change (In w (sw r)) in H; rewrite R9 in H; exact H]|].
+    intros _.
+    assert (HK : forall k0, In k0 (hk r) -> k0 = HUser) by exact R6.
+    assert (NT : ~ In TMissingFeatures (tk r)) by (intro X; specialize (R7 _ X); discriminate).
+    assert (IK : forall i, In i (ik r) -> i = IKLegacy) by (rewrite R5; intros i []).
+    assert (Hh : h = OpenStub \/ h = OpenAuth \/ h = OpenComponent) by (unfold h; destruct (is_raw s1), t; auto).
+    constructor.
+    + intros _. split; [split; [exact R4|split; [change (sm_enabled r = false); congruence|split; [exact HK|split; [exact IK|split; [exact NT|reflexivity]]]]]|]. split; [exact R2|]. split; [exact R1|].
+      change (h <> OpenTls /\ h <> OpenSasl /\ h <> OpenCompress). destruct Hh as [X|[X|X]]; rewrite X; repeat split; discriminate.
+    + intro X. specialize (HK _ X). discriminate.
+    + intro X. specialize (HK _ X). discriminate.
+    + intros k0 X Y. specialize (HK _ X). subst. discriminate.
+    + intros k0 X Y. specialize (HK _ X). subst. discriminate.
+    + intro X. contradiction.
+    + intro X. discriminate X.
+    + intro X. change (h = OpenTls) in X. destruct Hh as [Y|[Y|Y]]; congruence.
+    + intros [X|X]; change (h = OpenSasl) in X || change (h = OpenCompress) in X; destruct Hh as [Y|[Y|Y]]; congruence.
+    + intro X. change (h = OpenTls) in X. destruct Hh as [Y|[Y|Y]]; congruence.
+    + intro X. discriminate X.
+    + intro X. discriminate X.
+    + intro X. change (is_raw r = true) in X. split; [left; unfold h; change (is_raw s1) with (is_raw r); rewrite X; reflexivity|].
+      split; [exact HK|split; [exact IK|exact NT]].
+    + intros [X|X]; change (h = OpenStub) in X || change (h = OpenRaw) in X; change (is_raw r = true);
+        unfold h in X; change (is_raw s1) with (is_raw r) in X; destruct (is_raw r); [reflexivity|destruct t; discriminate|reflexivity|destruct t; discriminate].
+    + intros _. split; [intros k0 X; rewrite (HK _ X); reflexivity|split; [exact IK|exact NT]].
+    + intros x X. change (In x (sendq r)) in X. rewrite R1 in X. destruct X.
+    + intros _ [[k0 [X Y]]|[x [X _]]]; [specialize (HK _ X); subst; discriminate|]. change (In x (sendq r)) in X. rewrite R1 in X. destruct X.
+    + intros _ x X. change (In x (sendq r)) in X. rewrite R1 in X. destruct X.
+    + intros x X. change (In x (sendq r)) in X. rewrite R1 in X. destruct X.
+    + intros x X. change (In x (sendq r)) in X. rewrite R1 in X. destruct X.
+  - intros _ X. specialize (R6 _ X). discriminate.
+  - intro X. discriminate X.
+Qed.
+
+Lemma inv_disc_conv s s' :
+  Inv s -> st s = Disconnected -> st s' = Disconnected -> tls_support s' = tls_support s -> sw s' = sw s ->
+  sm_enabled s' = sm_enabled s -> Inv s'.
+Proof.
+  intros [[G _] [_ Gg]] D D' T S M. apply inv_dead; [apply (ginv_conv s); assumption|exact D'|]. rewrite M. apply Gg. exact D.
+Qed.
+
+Lemma set_flags_inv w s : Inv s -> Inv (fst (set_flags w s)).
+Proof.
+  intro I. unfold set_flags. destruct (st s) eqn:D; cbn [fst]; try exact I.
+  break_if; cbn [fst]; [exact I|]. cbv zeta. cbn [fst]. eapply inv_disc_conv; [exact I|exact D|exact D|reflexivity|reflexivity|reflexivity].
+Qed.
+Lemma set_flags_st w s : st (fst (set_flags w s)) = st s.
+Proof. unfold set_flags. destruct (st s) eqn:D; cbn [fst]; try exact D. break_if; cbn [fst]; [exact D|]. cbv zeta. exact D. Qed.
+
+Lemma connect_client_inv now s : Inv s -> Inv (fst (fst (connect_client now s))).
+Proof.
+  intro I. unfold connect_client. cbv zeta.
+  set (s1 := if negb (jid_set s) && cert_set s then _ else s).
+  assert (I1 : Inv s1) by (unfold s1; break_if; [revert I; inv_conv|exact I]). clearbody s1.
+  break_if; cbn [fst]; [exact I1|]. apply conn_connect_inv. revert I1. inv_conv.
+Qed.
+Lemma connect_component_inv now s : Inv s -> Inv (fst (fst (connect_component now s))).
+Proof.
+  intro I. unfold connect_component. break_if; cbn [fst]; [exact I|]. cbv zeta.
+  pose proof (set_flags_inv (if f_tls_disabled s then flags_readback s else flags_readback s + FLAG_DISABLE_TLS) s I) as I1.
+  destruct (set_flags (if f_tls_disabled s then flags_readback s else flags_readback s + FLAG_DISABLE_TLS) s) as [s1 rc]. cbn [fst] in I1.
+  break_if; cbn [fst]; [exact I1|]. apply conn_connect_inv. revert I1. inv_conv.
+Qed.
+
+Lemma open_stream_inv s : Inv s -> is_raw s = true -> Inv (conn_open_stream (prepare_reset OpenRaw s)).
+Proof.
+  intros I R.
+  assert (I1 : Inv (prepare_reset OpenRaw s)).
+  { destruct I as [[[G1 G2] Lv] [P G]]. split; [|split; [exact P|exact G]].
+    split; [constructor; [exact G1|exact G2]|]. intro L'. specialize (Lv L').
+    destruct (li_RAW s Lv R) as [A [B [C D]]].
+    unfold prepare_reset. apply linv_set_oh; [exact Lv|..].
+    - intros _. repeat split; discriminate.
+    - intro X. specialize (B _ X). discriminate.
+    - intro X. specialize (B _ X). discriminate.
+    - intros [k [X Y]]. specialize (B _ X). subst. discriminate.
+    - intros _ X. discriminate X.
+    - intro X. discriminate X.
+    - intros [X|X]; discriminate X.
+    - intro X. discriminate X.
+    - intros _ X. discriminate X.
+    - intros _ X. congruence.
+    - intros _. right. reflexivity.
+    - intros _. exact R.
+    - intro X. discriminate X. }
+  eapply inv_step_eff; [exact I1|apply conn_open_stream_eff|reflexivity|reflexivity|reflexivity|reflexivity|reflexivity|..];
+    [pw_tac|pt_tac|cbn; tauto|cbn; tauto].
+Qed.
+
+Lemma step0_inv s o : Inv s -> Inv (fst (step0 s o)).
+Proof.
+  intro I. unfold step0. destruct (crashed s); [exact I|].
+  destruct o.
+  - pose proof (set_flags_inv w s I) as X. destruct (set_flags w s). exact X.
+  - destruct (st s) eqn:D; cbn [fst ret]; try exact I. eapply inv_disc_conv; [exact I|exact D|exact D|reflexivity|reflexivity|reflexivity].
+  - destruct (st s) eqn:D; cbn [fst ret]; try exact I. eapply inv_disc_conv; [exact I|exact D|exact D|reflexivity|reflexivity|reflexivity].
+  - destruct (st s) eqn:D; cbn [fst ret]; try exact I. eapply inv_disc_conv; [exact I|exact D|exact D|reflexivity|reflexivity|reflexivity].
+  - destruct (st s) eqn:D; cbn [fst ret]; try exact I.
+    eapply inv_disc_conv; [exact I|exact D|..]; destruct stanza, timed; cbn; unfold h_add, timed_add; repeat break_if; try reflexivity; exact D.
+  - destruct (st s) eqn:D; cbn [fst ret]; try exact I. eapply inv_disc_conv; [exact I|exact D|exact D|reflexivity|reflexivity|reflexivity].
+  - cbn [fst ret]. revert I. inv_conv.
+  - pose proof (connect_client_inv now s I) as X. destruct (connect_client now s) as [[s1 o1] rc]. exact X.
+  - destruct (st s) eqn:D; cbn [fst]; try exact I.
+    assert (I1 : Inv (set_is_raw true s)) by (eapply inv_disc_conv; [exact I|exact D|exact D|reflexivity|reflexivity|reflexivity]).
+    pose proof (connect_client_inv now _ I1) as X. destruct (connect_client now (set_is_raw true s)) as [[s1 o1] rc]. exact X.
+  - pose proof (connect_component_inv now s I) as X. destruct (connect_component now s) as [[s1 o1] rc]. exact X.
+  - apply run_once_inv. exact I.
+  - cbn [fst ret]. apply inv_xmpp_disconnect. exact I.
+  - cbn [fst ret]. apply inv_send_user. exact I.
+  - cbn [fst ret]. apply inv_send_raw. exact I.
+  - exact I.
+  - destruct (is_raw s) eqn:R; cbn [fst ret]; [apply open_stream_inv; assumption|exact I].
+  - destruct (st s) eqn:D; cbn [fst ret]; try exact I; apply inv_release; exact I.
+Qed.
+
+Lemma step_inv s o : Inv s -> Inv (fst (step s o)).
+Proof.
+  intro I. unfold step. pose proof (step0_inv s o I) as X. destruct (step0 s o) as [s1 outs]. cbn [fst] in *.
+  apply inv_note_outs. exact X.
+Qed.
+
+Lemma init_inv : Inv init_state.
+Proof.
+  apply inv_dead; [constructor; [reflexivity|intros w []]|reflexivity|reflexivity].
+Qed.
+
+(* ------------------------------------------------------------------ what a step can emit *)
+Definition good_out (s : state) (o' : out) : Prop :=
+  quiet (f_tls_disabled s) o' = true \/
+  (st s = Connected /\ exists x, In x (sendq s) /\ o' = OWire (tls_present s) (fst (fst x))).
+Definition good_outs (s : state) (outs : list out) : Prop := forall o', In o' outs -> good_out s o'.
+Lemma good_outs_q s outs : outs_q (f_tls_disabled s) outs -> good_outs s outs.
+Proof. unfold outs_q. rewrite forallb_forall. intros H o' X. left. auto. Qed.
+Lemma good_outs_app s a b : good_outs s a -> good_outs s b -> good_outs s (a ++ b).
+Proof. intros A B o' X. apply in_app_iff in X as [X|X]; auto. Qed.
+
+Lemma sock_connect_quiet d c : outs_q d (fst (sock_connect c)).
+Proof.
+  induction c as [|k r IH]; simpl; [reflexivity|]. destruct k; try reflexivity.
+  destruct (sock_connect r) as [o x]. exact IH.
+Qed.
+Lemma connect_next_good now s : goodTP s (connect_next now s).
+Proof.
+  unfold connect_next. pose proof (sock_connect_quiet (f_tls_disabled s) (cands s)) as Q.
+  destruct (sock_connect (cands s)) as [o [[k r]|]]; split; cbn [fst snd]; try exact Q.
+  - eapply (eff_weaken [] _ pnone); [solve_sub|apply pimp_true|eff_frame].
+  - eapply (eff_weaken [] _ pnone); [solve_sub|apply pimp_true|eff_frame].
+Qed.
+
+Lemma conn_established_good now s : goodR s (conn_established now s).
+Proof.
+  unfold conn_established. cbv zeta.
+  assert (FIN : forall s1 o1 (ok : bool), eff cAll pTrue s s1 -> outs_q (f_tls_disabled s) o1 ->
+            goodR s (if negb ok then let '(s2, o2) := conn_disconnect s1 in (s2, o1 ++ o2)
+                     else if is_raw s1 then (set_neg_done true (timed_reset_all now s1), o1 ++ [ORawConnect])
+                     else (conn_open_stream s1, o1))).
+  { intros s1 o1 ok E Q. destruct ok; cbn [negb].
+    - destruct (is_raw s1); split; cbn [fst snd]; try (apply outs_q_app; [exact Q|reflexivity]); try exact Q.
+      + eapply effA_trans; [exact E|]. peels.
+      + eapply effA_trans; [exact E|]. peels.
+    - pose proof (conn_disconnect_good s1) as [E2 Q2]. destruct (conn_disconnect s1) as [s2 o2]. cbn [fst snd] in *.
+      split; cbn [fst snd]; [eapply effA_trans; eassumption|].
+      apply outs_q_app; [exact Q|]. rewrite <- (effA_dis _ _ (effA_P _ _ E)). exact Q2. }
+  destruct (f_legacy_ssl s && negb (is_raw s)); [|apply FIN; [apply eff_refl|reflexivity]].
+  pose proof (conn_tls_start_spec s) as Sp. pose proof (conn_tls_start_eff pnone s) as Ef.
+  destruct (conn_tls_start s) as [[s1 o1] ok]. cbn [fst snd] in *.
+  apply FIN; [eapply eff_weaken; [|apply pimp_true|exact Ef]; solve_sub|].
+  destruct Sp as [Sp|[Sp|Sp]]; decompose [and] Sp; subst o1; try reflexivity; unfold outs_q; cbn; rewrite H1; reflexivity.
+Qed.
+
+Lemma send_phase_outs s :
+  good_outs s (snd (send_phase s)) /\ f_tls_disabled (fst (send_phase s)) = f_tls_disabled s.
+Proof.
+  destruct (st s) eqn:C; try (unfold send_phase; rewrite C; split; [intros o' []|reflexivity]).
+  rewrite (send_phase_eq s C). cbv zeta.
+  assert (W : good_outs s (map (fun x => OWire (tls_present s) (fst (fst x))) (sendq s))).
+  { intros o' X. apply in_map_iff in X as [x [X1 X2]]. right. split; [exact C|]. exists x. auto. }
+  destruct (negb (err (flushed s) =? 0)); cbn [fst snd]; [|split; [exact W|reflexivity]].
+  pose proof (conn_disconnect_good (set_err ECONNABORTED (flushed s))) as [E Q].
+  destruct (conn_disconnect (set_err ECONNABORTED (flushed s))) as [s2 o2]. cbn [fst snd] in *.
+  split; [apply good_outs_app; [exact W|apply good_outs_q; exact Q]|]. exact (effA_dis _ _ (effA_P _ _ E)).
+Qed.
+
+Lemma run_once_outs now rd s0 : good_outs s0 (snd (run_once now rd s0)).
+Proof.
+  unfold run_once. destruct (crashed s0); [intros o' []|].
+  set (s := match rd with RdNone => s0 | _ => match st s0 with Disconnected => s0 | _ => set_rxq (rxq s0 ++ [rd]) s0 end end).
+  assert (Es : good_outs s = good_outs s0 /\ f_tls_disabled s = f_tls_disabled s0).
+  { unfold s. destruct rd; try (split; reflexivity); destruct (st s0); split; reflexivity. }
+  destruct Es as [Es Ed]. clearbody s.
+  destruct (send_phase_outs s) as [W D1]. rewrite Es in W. rewrite Ed in D1.
+  destruct (send_phase s) as [s1 o1]. cbn [fst snd] in *.
+  destruct (crashed s1); [exact W|].
+  set (d := f_tls_disabled s0) in *.
+  assert (Q : forall rest, outs_q d rest -> good_outs s0 (o1 ++ rest)).
+  { intros rest X. apply good_outs_app; [exact W|apply good_outs_q; exact X]. }
+  match goal with |- context [fire_timed now ?x] => set (s2 := x) end.
+  assert (D2 : f_tls_disabled s2 = d) by (unfold s2; destruct (reset_parser s1); exact D1). clearbody s2.
+  pose proof (fire_timed_good now s2) as [E3 Q3]. rewrite D2 in Q3.
+  assert (D3 : f_tls_disabled (fst (fire_timed now s2)) = d) by (rewrite (effA_dis _ _ (effA_P _ _ E3)); exact D2).
+  destruct (fire_timed now s2) as [s3 o3]. cbn [fst snd] in *.
+  destruct (crashed s3); [apply Q; exact Q3|].
+  match goal with |- good_outs s0 (snd (let '(s4, o4) := ?r4 in _)) =>
+    assert (G4 : f_tls_disabled (fst r4) = d /\ outs_q d (snd r4)) end.
+  { destruct (st s3); cbn [fst snd ret]; try (split; [exact D3|reflexivity]).
+    destruct (now - stamp s3 <=? CONNECT_TIMEOUT); cbn [fst snd ret]; [split; [exact D3|reflexivity]|].
+    pose proof (connect_next_good now s3) as [E Qn]. rewrite D3 in Qn.
+    pose proof (effA_dis _ _ E) as Dn. rewrite D3 in Dn.
+    destruct (connect_next now s3) as [[s' o'] ok]. cbn [fst snd] in *. destruct ok; cbn [fst snd]; [split; assumption|].
+    split; [unfold reset_sm_for_reconnect; cbv zeta; break_if; exact Dn|apply outs_q_app; [exact Qn|reflexivity]]. }
+  match goal with |- good_outs s0 (snd (let '(s4, o4) := ?r4 in _)) => destruct r4 as [s4 o4] end.
+  cbn [fst snd] in G4. destruct G4 as [D4 Q4].
+  match goal with |- good_outs s0 (snd (if negb ?ready then _ else _)) => destruct (negb ready) end;
+    [apply Q; repeat apply outs_q_app; try assumption; reflexivity|].
+  match goal with |- good_outs s0 (snd (let '(s5, o5) := ?r5 in _)) =>
+    assert (G5 : f_tls_disabled (fst r5) = d /\ outs_q d (snd r5)) end.
+  { destruct (st s4); cbn [fst snd ret]; try (split; [exact D4|reflexivity]).
+    - destruct (cur_ep s4); cbn [fst snd ret]; try (split; [exact D4|reflexivity]).
+      + pose proof (conn_established_good now (set_st Connected s4)) as [E Qe].
+        split; [rewrite (effA_dis _ _ (effA_P _ _ E)); exact D4|]. change (f_tls_disabled (set_st Connected s4)) with (f_tls_disabled s4) in Qe.
+        rewrite D4 in Qe. exact Qe.
+      + pose proof (connect_next_good now s4) as [E Qn]. rewrite D4 in Qn.
+        pose proof (effA_dis _ _ E) as Dn. rewrite D4 in Dn.
+        destruct (connect_next now s4) as [[s' o'] ok]. cbn [fst snd] in *. destruct ok; cbn [fst snd]; [split; assumption|].
+        split; [unfold reset_sm_for_reconnect; cbv zeta; break_if; exact Dn|apply outs_q_app; [exact Qn|reflexivity]].
+    - set (u := set_rxq (tl (rxq s4)) s4). assert (Du : f_tls_disabled u = d) by exact D4.
+      destruct (match rxq s4 with [] => RdNone | x :: _ => x end); cbn [fst snd ret]; try (split; [exact Du|reflexivity]).
+      + pose proof (feed_items_good now its u) as [E Qf]. rewrite Du in Qf. pose proof (effA_dis _ _ E) as Df. rewrite Du in Df.
+        destruct (feed_items now its u) as [[s' o'] bad]. cbn [fst snd] in *. destruct bad; cbn [fst snd]; [|split; assumption].
+        split; [|exact Qf]. rewrite (effA_dis _ _ (effA_P _ _ ltac:(toA send_gated_eff))). exact Df.
+      + assert (X : f_tls_disabled (fst (conn_disconnect (set_err ECONNRESET u))) = d /\ outs_q d (snd (conn_disconnect (set_err ECONNRESET u)))).
+        { pose proof (conn_disconnect_good (set_err ECONNRESET u)) as [E Qc]. split; [rewrite (effA_dis _ _ (effA_P _ _ E)); exact Du|].
+          change (f_tls_disabled (set_err ECONNRESET u)) with (f_tls_disabled u) in Qc. rewrite Du in Qc. exact Qc. }
+        destruct (tls_present u); exact X.
+      + pose proof (conn_disconnect_good (set_err ECONNRESET u)) as [E Qc]. split; [rewrite (effA_dis _ _ (effA_P _ _ E)); exact Du|].
+        change (f_tls_disabled (set_err ECONNRESET u)) with (f_tls_disabled u) in Qc. rewrite Du in Qc. exact Qc. }
+  match goal with |- good_outs s0 (snd (let '(s5, o5) := ?r5 in _)) => destruct r5 as [s5 o5] end.
+  cbn [fst snd] in G5. destruct G5 as [D5 Q5].
+  destruct (crashed s5); [apply Q; repeat apply outs_q_app; assumption|].
+  pose proof (fire_timed_good now s5) as [E6 Q6]. rewrite D5 in Q6.
+  destruct (fire_timed now s5) as [s6 o6]. cbn [fst snd] in *.
+  apply Q. repeat apply outs_q_app; try assumption; reflexivity.
+Qed.
+
+Lemma conn_connect_outs d now t s : outs_q d (snd (fst (conn_connect now t s))).
+Proof.
+  unfold conn_connect. destruct (st s); try reflexivity. cbv zeta.
+  match goal with |- context [sock_connect ?c] => pose proof (sock_connect_quiet d c) as Q; destruct (sock_connect c) as [o [[k r]|]] end; exact Q.
+Qed.
+Lemma connect_client_outs d now s : outs_q d (snd (fst (connect_client now s))).
+Proof.
+  unfold connect_client. cbv zeta. set (s1 := if negb (jid_set s) && cert_set s then _ else s). clearbody s1.
+  break_if; [reflexivity|]. apply conn_connect_outs.
+Qed.
+
+Lemma step0_outs s o : good_outs s (snd (step0 s o)).
+Proof.
+  unfold step0. destruct (crashed s); [intros o' []|].
+  destruct o; try (cbn [snd ret]; intros o' []; fail).
+  - destruct (set_flags w s). apply good_outs_q. reflexivity.
+  - destruct (st s); intros o' [].
+  - destruct (st s); intros o' [].
+  - destruct (st s); intros o' [].
+  - destruct (st s); intros o' [].
+  - destruct (st s); intros o' [].
+  - pose proof (connect_client_outs (f_tls_disabled s) now s) as Q. destruct (connect_client now s) as [[s1 o1] rc]. cbn [fst snd] in *.
+    apply good_outs_q. apply outs_q_app; [exact Q|reflexivity].
+  - destruct (st s); try (apply good_outs_q; reflexivity).
+    pose proof (connect_client_outs (f_tls_disabled s) now (set_is_raw true s)) as Q. destruct (connect_client now (set_is_raw true s)) as [[s1 o1] rc]. cbn [fst snd] in *.
+    apply good_outs_q. apply outs_q_app; [exact Q|reflexivity].
+  - unfold connect_component. break_if; [apply good_outs_q; reflexivity|]. cbv zeta.
+    destruct (set_flags (if f_tls_disabled s then flags_readback s else flags_readback s + FLAG_DISABLE_TLS) s) as [s1 rc0].
+    break_if; [apply good_outs_q; reflexivity|].
+    pose proof (conn_connect_outs (f_tls_disabled s) now TComponent (set_cands (next_cands s1) s1)) as Q.
+    destruct (conn_connect now TComponent (set_cands (next_cands s1) s1)) as [[s2 o2] rc]. cbn [fst snd] in *.
+    apply good_outs_q. apply outs_q_app; [exact Q|reflexivity].
+  - apply run_once_outs.
+  - apply good_outs_q. reflexivity.
+  - destruct (is_raw s); intros o' [].
+  - destruct (st s); try (intros o' []; fail); apply good_outs_q; apply conn_disconnect_good.
+Qed.
+
+(* ------------------------------------------------------------------ the four policy statements *)
+Lemma step_outs s o : snd (step s o) = snd (step0 s o).
+Proof. unfold step. destruct (step0 s o). reflexivity. Qed.
+
+Lemma linv_of_wire s : Inv s -> st s = Connected -> LInv s.
+Proof. intros [[_ Lv] _] C. apply Lv. unfold live. rewrite C. discriminate. Qed.
+
+Lemma ok_from_good (P : out -> bool) s outs :
+  good_outs s outs ->
+  (forall o', quiet (f_tls_disabled s) o' = true -> P o' = true) ->
+  (st s = Connected -> forall x, In x (sendq s) -> P (OWire (tls_present s) (fst (fst x))) = true) ->
+  forallb P outs = true.
+Proof.
+  intros G Q W. apply forallb_forall. intros o' X. destruct (G o' X) as [A|[C [x [B1 B2]]]]; [auto|]. subst o'. auto.
+Qed.
+
+Lemma step_ok_mandatory s o : Inv s -> ok_mandatory s o (fst (step s o)) (snd (step s o)) = true.
+Proof.
+  intro I. unfold ok_mandatory. rewrite step_outs. destruct (f_tls_mandatory s) eqn:M; [|reflexivity]. cbn [negb orb].
+  apply (ok_from_good _ s); [apply step0_outs| |].
+  - intros o' Q. destruct o'; try reflexivity. discriminate Q.
+  - intros C x X. destruct (tls_present s) eqn:T; [reflexivity|].
+    destruct (is_cred (fst (fst x))) eqn:Cr; [|reflexivity]. exfalso.
+    pose proof (li_M s (linv_of_wire s I C) M (or_intror (ex_intro _ x (conj X Cr)))) as S.
+    unfold is_secured in S. rewrite T in S. rewrite andb_false_r in S. discriminate.
+Qed.
+
+Lemma step_ok_disabled s o : Inv s -> ok_disabled s o (fst (step s o)) (snd (step s o)) = true.
+Proof.
+  intro I. unfold ok_disabled. rewrite step_outs. destruct (f_tls_disabled s) eqn:D; [|reflexivity]. cbn [negb orb].
+  apply (ok_from_good _ s); [apply step0_outs| |].
+  - intros o' Q. rewrite D in Q. destruct o'; try reflexivity; discriminate Q.
+  - intros C x X. pose proof (li_D s (linv_of_wire s I C) D x X) as N. destruct (fst (fst x)); try reflexivity. congruence.
+Qed.
+
+Lemma step_ok_plain s o : Inv s -> ok_plain s o (fst (step s o)) (snd (step s o)) = true.
+Proof.
+  intro I. unfold ok_plain. rewrite step_outs.
+  apply (ok_from_good _ s); [apply step0_outs| |].
+  - intros o' Q. destruct o'; try reflexivity. discriminate Q.
+  - intros C x X. destruct (fst (fst x)) eqn:W; try reflexivity. destruct m; try reflexivity.
+    destruct (li_PL s (linv_of_wire s I C) x X W) as [G _]. rewrite G. reflexivity.
+Qed.
+
+Lemma step_ok_legacy s o : Inv s -> ok_legacy s o (fst (step s o)) (snd (step s o)) = true.
+Proof.
+  intro I. unfold ok_legacy. rewrite step_outs.
+  apply (ok_from_good _ s); [apply step0_outs| |].
+  - intros o' Q. destruct o'; try reflexivity. discriminate Q.
+  - intros C x X. destruct (fst (fst x)) eqn:W; try reflexivity.
+    destruct (li_L s (linv_of_wire s I C) x X W) as [A B]. rewrite A, B. reflexivity.
+Qed.
+
+Theorem mandatory_ok : forall ops, check_run ok_mandatory init_state ops = true.
+Proof. intro ops. apply (check_run_inv ok_mandatory Inv step_inv step_ok_mandatory ops init_state init_inv). Qed.
+Theorem disabled_ok : forall ops, check_run ok_disabled init_state ops = true.
+Proof. intro ops. apply (check_run_inv ok_disabled Inv step_inv step_ok_disabled ops init_state init_inv). Qed.
+Theorem plain_ok : forall ops, check_run ok_plain init_state ops = true.
+Proof. intro ops. apply (check_run_inv ok_plain Inv step_inv step_ok_plain ops init_state init_inv). Qed.
+Theorem legacy_ok : forall ops, check_run ok_legacy init_state ops = true.
+Proof. intro ops. apply (check_run_inv ok_legacy Inv step_inv step_ok_legacy ops init_state init_inv). Qed.
